@@ -28,6 +28,13 @@ def _is_const(e: ast.AST, v=None) -> bool:
     return isinstance(e, ast.Constant) and isinstance(e.value, bool) and (v is None or e.value is v)
 
 
+def _truth_const(e: ast.AST) -> ast.AST:
+    """In test position a known constant (None, a number, a string) is as good as its truth value."""
+    if isinstance(e, ast.Constant) and not isinstance(e.value, bool) and (e.value is None or isinstance(e.value, (int, float, str))):
+        return TRUE if e.value else FALSE
+    return e
+
+
 def residual(e: ast.AST, subject: str, K: str, env: Optional[Dict[str, ast.AST]] = None, depth: int = 0) -> ast.AST:
     """`e` simplified under the fact `<subject> == K` (K a constant NAME); names bound in env are replaced by their (already simplified) values."""
     env = env or {}
@@ -54,6 +61,41 @@ def residual(e: ast.AST, subject: str, K: str, env: Optional[Dict[str, ast.AST]]
             return TRUE if e.left.id == K else FALSE
         if isinstance(e.ops[0], ast.NotEq):
             return FALSE if e.left.id == K else TRUE
+    if isinstance(e, ast.Compare) and len(e.ops) == 1 and len(e.comparators) == 1:
+        # a comparison between values that are known once the dispatch is decided (a flag / side number computed from the kind)
+        a = residual(e.left, subject, K, env, depth + 1)
+        b = residual(e.comparators[0], subject, K, env, depth + 1)
+
+        def const(x):
+            if isinstance(x, ast.Constant):
+                return True, x.value
+            if isinstance(x, (ast.Tuple, ast.List)) and all(isinstance(y, ast.Constant) for y in x.elts):
+                return True, tuple(y.value for y in x.elts)
+            return False, None
+        ka, va = const(a)
+        kb, vb = const(b)
+        if ka and kb:
+            op = e.ops[0]
+            try:
+                if isinstance(op, ast.Is) and (va is None or vb is None):
+                    return TRUE if va is vb else FALSE
+                if isinstance(op, ast.IsNot) and (va is None or vb is None):
+                    return FALSE if va is vb else TRUE
+                if isinstance(op, ast.Eq):
+                    return TRUE if va == vb else FALSE
+                if isinstance(op, ast.NotEq):
+                    return TRUE if va != vb else FALSE
+                if isinstance(op, ast.In):
+                    return TRUE if va in vb else FALSE
+                if isinstance(op, ast.NotIn):
+                    return TRUE if va not in vb else FALSE
+            except TypeError:
+                pass
+        if a is not e.left or b is not e.comparators[0]:
+            return ast.Compare(left=a, ops=e.ops, comparators=[b])
+        return e
+    if isinstance(e, ast.Constant):
+        return e
     if isinstance(e, ast.UnaryOp) and isinstance(e.op, ast.Not):
         v = residual(e.operand, subject, K, env, depth + 1)
         if _is_const(v):
@@ -75,7 +117,7 @@ def residual(e: ast.AST, subject: str, K: str, env: Optional[Dict[str, ast.AST]]
                 return FALSE
         return vals[0] if len(vals) == 1 else ast.BoolOp(op=e.op, values=vals)
     if isinstance(e, ast.IfExp):
-        t = residual(e.test, subject, K, env, depth + 1)
+        t = _truth_const(residual(e.test, subject, K, env, depth + 1))
         if _is_const(t):
             return residual(e.body if t.value else e.orelse, subject, K, env, depth + 1)
         return ast.IfExp(test=t, body=residual(e.body, subject, K, env, depth + 1), orelse=residual(e.orelse, subject, K, env, depth + 1))
@@ -133,7 +175,7 @@ def run(fn: ast.FunctionDef, subject: str, K: str, inside: Optional[List[ast.stm
             if isinstance(st, (ast.Continue, ast.Break)):
                 return env, True
             if isinstance(st, ast.If):
-                t = residual(st.test, subject, K, env)
+                t = _truth_const(residual(st.test, subject, K, env))
                 if _is_const(t):
                     env, term = block(st.body if t.value else st.orelse, env, conds)
                     if term:
